@@ -155,6 +155,7 @@ impl Case {
                     ReadEv::Data(n) => format!("d{}", n),
                     ReadEv::Intr => "i".to_string(),
                     ReadEv::Zero => "z".to_string(),
+                    ReadEv::Sticky(k) => format!("f{}", k),
                     ReadEv::Fail(k) => format!("f{}", k),
                 })
                 .collect::<Vec<_>>()
